@@ -231,6 +231,46 @@ def h09(S, n_jobs=2, queues=1, max_limit=3, dmax_us=3000, late=False, backend="m
     # (run_one_queue pauses every consumer once more when it stops consuming: allowed)
 
 
+def h09_expired_while_waiting(S):
+    """A saturated worker holds a message whose time-to-live runs out while it waits for a free slot: whatever happens to that
+    message, the slot it waited for is not lost - the jobs behind it are executed."""
+    from repid import Job, Router, Worker
+    from repid.converter import BasicConverter
+
+    limit = S.pick("tasks_limit", 2) + 1
+    n_short_lived = S.pick("short_lived_messages", 2) + 1
+    ran = []
+    out = {}
+
+    async def main(loop):
+        w = World()
+        await w.open(record=False)
+        r = Router()
+
+        @r.actor(converter=BasicConverter)
+        async def job(i: int, d: float = 0.0):
+            ran.append(i)
+            await asyncio.sleep(Fraction(str(d)))
+
+        for i in range(limit):
+            await Job("job", args={"i": i, "d": 2.0}, id_=f"long{i}", _connection=w.conn).enqueue()
+        for k in range(n_short_lived):
+            await Job("job", args={"i": 100 + k}, id_=f"ttl{k}", ttl=real_timedelta(seconds=1), _connection=w.conn).enqueue()
+        for k in range(2):
+            await Job("job", args={"i": 200 + k}, id_=f"plain{k}", _connection=w.conn).enqueue()
+        worker = Worker(routers=[r], handle_signals=[], _connection=w.conn, graceful_shutdown_time=1.0, tasks_limit=limit,
+                        messages_limit=limit + n_short_lived + 2)
+        task = asyncio.create_task(worker.run())
+        await asyncio.sleep(12)
+        out["plain_ran"] = sorted(i for i in ran if i >= 200)
+        task.cancel()
+        await asyncio.gather(task, return_exceptions=True)
+
+    run_async(main)
+    S.cover("expired-while-waiting")
+    S.check("no-stall", out["plain_ran"] == [200, 201], info=f"tasks_limit={limit}: executed {ran}; the plain jobs behind the short-lived ones: {out['plain_ran']}")
+
+
 HARNESSES = [
     Harness(
         name="H09-mem", scenario=h09, workers=16, budget_s=900,
@@ -292,6 +332,9 @@ HARNESSES.append(
             stubs=["fake Redis server"]))
 ASSUMPTIONS = ["virtual time: timers fire exactly at their deadline; the 1 ms polling of the in-memory consumer runs concretely",
                "every path is one ordering class of timer events, decided by z3 over the symbolic durations"]
+HARNESSES.append(Harness(name="H09-expired-while-waiting", scenario=h09_expired_while_waiting, workers=4,
+                         bounds={"tasks_limit": "1..2, saturated by 2 s jobs", "held messages": "1..2 with a ttl of 1 s, then two plain jobs"},
+                         functions=["_runner.py:_Runner._run_consumer"], covers=["expired-while-waiting"]))
 
 from engine.harness import borrowed  # noqa: E402
 HARNESSES.append(borrowed("c05", "H05-mem", "H09-delayed-liveness"))      # a due delayed message is picked up while a slot is free
